@@ -74,6 +74,7 @@ def validate_with_deviations(v, spec, records, by_id, tag, describe):
     devs = open_deviations()
     rej = [r for r in records if r["id"] in bad]
     explained = {}
+    bad2 = {}
     if devs:
         cfg = os.path.join(vlib.WORK, "%s_dev_%d.cfg" % (spec, os.getpid()))
         base = open(os.path.join(vlib.SPECS, spec + ".cfg")).read()
@@ -91,6 +92,8 @@ def validate_with_deviations(v, spec, records, by_id, tag, describe):
             if not fired:
                 del explained[rid]       # accepted without any deviation firing: not explained
     for rid, reasons in bad.items():
+        if devs and rid in bad2:
+            reasons = reasons + ["with open deviations on: " + "; ".join(bad2[rid])]
         if rid in explained:
             fired = explained[rid][0]
             for d in devs:
